@@ -75,6 +75,13 @@ def features(prog):
     return feats
 
 
+def pclass(prog):
+    P = prog.get("P")
+    if not P:
+        return "absent"
+    return "a list containing n" if any(c02_ref.is_n(f) for f in P) else "a list without n"
+
+
 def py_context(src, off):
     """lexical context (by Python's tokenizer) of the character src[off] of a valid expression"""
     src = src.replace("\r\n", " \n")  # same length, same tokens
@@ -169,6 +176,12 @@ def signature(prog, exp, obs, tags=None, text=None):
         if fp:
             return "spell:" + fp
         return "spell:%s:%s" % (how, (tags or ["?"])[0])
+    if fam == "fpart":
+        return "fpart:%s:%s" % (how, prog.get("fclass", "?"))
+    if fam == "vals":
+        nd = value_expr(prog)
+        stages = c02_ref.expression_stages(nd[2] if nd else [], prog.get("P"), prog.get("D"))
+        return "vals:%s:first stage %s" % (how, stages[0] if stages else "none")
     if fam == "nest":
         fo, fi = prog.get("nest") or ["?", "?"]
         cls = lambda f: "decode.*" if f.startswith("decode.") else f  # noqa
